@@ -663,7 +663,7 @@ func (s *State) expectDeposit(e *Expect, kind, from string, amt *big.Int, dst ui
 	e.Out = DepDependent
 	mod := moduleBech()
 	e.Deps = []DepExp{
-		{Method: "Transfer", From: from, To: ct.ModuleName, Denom: burnToken, Amount: amt},
+		{Method: "Transfer", From: Bech(addrBytes(from)), To: ct.ModuleName, Denom: burnToken, Amount: amt}, // the account, however From spells it
 		{Method: "Burn", From: mod, Denom: burnToken, Amount: amt},
 	}
 	n := s.NextNonce
@@ -801,7 +801,7 @@ func (s *State) expectReplaceDeposit(e *Expect, msg *ct.MsgReplaceDepositForBurn
 		Sender: om.Sender, Recipient: om.Recipient, Caller: msg.NewDestinationCaller, Body: body}}
 	e.DepositEv = &DepositEvExp{Nonce: om.Nonce, Amount: bm.Amount, Depositor: msg.From, MintRecipient: msg.NewMintRecipient,
 		DstDomain: om.DstDomain, Messenger: om.Recipient, Caller: msg.NewDestinationCaller}
-	if em != nil {
+	if em != nil && emittedHere { // only a message this chain emitted has a deposit event to agree with
 		e.DepositEv.BurnToken = em.BurnTokenEv
 	}
 	e.Effect = func(s *State) {}
